@@ -79,13 +79,41 @@ def splice_loops(body, loops, key, rowprefix):
     return out
 
 
+def filter_loops(loops, keep):
+    """loop contracts restricted to the clause ids accepted by keep(cid) (the decreases clause always stays)"""
+    if not loops:
+        return loops
+    out = {}
+    for n, spec in loops.items():
+        o = {}
+        for kw, v in spec.items():
+            o[kw] = [(cid, txt) for (cid, txt) in v if keep(cid)] if kw != 'decreases' else v
+        out[n] = o
+    return out
+
+
 def emit_fn(g, key, fx, contract, rowprefix):
-    """fx: dict(sig, body, ...) from the extractor; contract: table entry."""
+    """fx: dict(sig, body, ...) from the extractor; contract: table entry.
+    `views` (optional): {name: dict(clauses={ids}, base={ids})}: the clauses of a view are proved on a SECOND copy of the same extracted body
+    (fn <name>__<view>) together with the base clauses only, which keeps each solver query small; the main copy carries all other clauses."""
     first = len(g.lines) + 1
+    views = contract.get('views', {})
+    in_view = set().union(*[v['clauses'] for v in views.values()]) if views else set()
+    emit_fn_copy(g, key, fx, contract, rowprefix, '', lambda cid: cid not in in_view)
+    for vn, v in views.items():
+        allowed = set(v['clauses']) | set(v['base'])
+        g.emit('    // ---- the same extracted body again, for the clauses %s only (view `%s`)' % (sorted(v['clauses']), vn))
+        emit_fn_copy(g, key, fx, contract, rowprefix, '__' + vn, lambda cid, allowed=allowed: cid in allowed)
+    g.fnspan[key] = (first, len(g.lines))
+
+
+def emit_fn_copy(g, key, fx, contract, rowprefix, suffix, keep):
     g.emit('    // ---- extracted from /repo: %s' % key)
     for a in contract.get('attrs', []):
         g.emit('    ' + a)
     sig = fx['sig']
+    if suffix:
+        sig = re.sub(r'\bfn (\w+)', lambda m: 'fn ' + m.group(1) + suffix, sig, 1)
     if contract.get('ghost_param'):
         sig = sig.replace(')', ', ' + contract['ghost_param'] + ')', 1) if not sig.endswith('(&mut self)') else sig.replace('(&mut self)', '(&mut self, %s)' % contract['ghost_param'])
     g.emit('    ' + sig)
@@ -95,6 +123,8 @@ def emit_fn(g, key, fx, contract, rowprefix):
             g.emit('            %s,' % r)
     g.emit('        ensures')
     for (cid, serves, expr) in contract['ensures']:
+        if not keep(cid):
+            continue
         row = '%s.%s' % (rowprefix, cid)
         g.rows[row] = dict(serves=serves, kind='verus', fn=key, text=expr)
         g.emit('            %s,' % expr, row=row)
@@ -104,7 +134,7 @@ def emit_fn(g, key, fx, contract, rowprefix):
     if contract.get('prologue'):
         g.emit('        ' + contract['prologue'] + '   // ghost prologue (rule X-link)')
     brow = '%s.body' % rowprefix
-    body_lines = splice_loops(fx['body'], contract.get('loops'), key, rowprefix)
+    body_lines = splice_loops(fx['body'], filter_loops(contract.get('loops'), keep), key, rowprefix)
     g.rows[brow] = dict(serves=contract.get('body_serves', []), kind='verus', fn=key,
                         text='callee preconditions, assertions (incl. debug_assert!), arithmetic and termination inside the extracted body')
     for (l, lrow) in body_lines:
@@ -114,6 +144,8 @@ def emit_fn(g, key, fx, contract, rowprefix):
                                 text='loop contract clause `%s` of %s' % (cid, key))
         g.emit('    ' + l, row=(lrow or brow))
     g.emit('    }')
+    if suffix:
+        return
     for (hn, arg, hb) in fx.get('hoisted', []):
         # hoisted nested fn (X-nested): inherits the obligations of its single call site
         hc = contract.get('hoisted', {}).get(hn)
@@ -130,7 +162,6 @@ def emit_fn(g, key, fx, contract, rowprefix):
         for l in hb.split('\n'):
             g.emit('    ' + l, row=brow)
         g.emit('    }')
-    g.fnspan[key] = (first, len(g.lines))
 
 
 def generate(repo, table, lemma_files=None, with_lemmas=True):
@@ -157,7 +188,10 @@ def generate(repo, table, lemma_files=None, with_lemmas=True):
 
     g.emit('verus! {')
     if with_lemmas:
-        g.emit(open(os.path.join(VERIF, 'verus/35_broadcast_use.rs')).read())
+        bu = os.path.join(VERIF, 'verus/35_broadcast_use.rs')
+        if os.environ.get('VERIF_WIP') and os.path.exists(os.path.join(VERIF, 'wip/35_broadcast_use.rs')):
+            bu = os.path.join(VERIF, 'wip/35_broadcast_use.rs')       # development only
+        g.emit(open(bu).read())
     else:
         g.emit('broadcast use {axioms::ax_debt_empty, axioms::ax_debt_zero_factors, axioms::ax_debt_reset};')
     g.emit('impl Metrics {')
@@ -183,6 +217,12 @@ def generate(repo, table, lemma_files=None, with_lemmas=True):
             start = len(g.lines) + 1
             g.emit(open(os.path.join(VERIF, 'verus', f)).read())
             g.fnspan['file:' + f] = (start, len(g.lines))
+        # development only: lemma files being written live in wip/ so that checks running in the background do not pick them up
+        if os.environ.get('VERIF_WIP') and os.path.isdir(os.path.join(VERIF, 'wip')):
+            for f in sorted(x for x in os.listdir(os.path.join(VERIF, 'wip')) if re.match(r'[4-9]\d_.*\.rs$', x)):
+                start = len(g.lines) + 1
+                g.emit(open(os.path.join(VERIF, 'wip', f)).read())
+                g.fnspan['file:' + f] = (start, len(g.lines))
     g.emit('fn main() {}')
     return g, rec, inventory
 
